@@ -1,6 +1,7 @@
 //! C18 — exact nearest-neighbour search and the scalar distance kernels.
 //! The cpuid-based SIMD dispatch is stubbed to "no AVX2, no SSE": only the scalar kernels are covered.
 use grafeo_common::types::NodeId;
+use grafeo_core::index::vector::BinaryQuantizer;
 use grafeo_core::index::vector::{brute_force_knn, brute_force_knn_filtered, compute_distance, DistanceMetric};
 
 fn no_simd() -> bool { false }
@@ -160,3 +161,31 @@ fn c18_distance_dim1_vs_definition() {
     kani::cover!(a[0] == b[0] && a[0] != 0.0);
     kani::cover!(a[0] != b[0]);
 }
+
+//@ property: C18
+//@ tier: quick
+//@ cap_s: 300
+//@ encodes: BinaryQuantizer::{quantize,hamming_distance,words_needed}
+//@ symbolic: two 3-dimensional vectors (every f32 bit pattern, NaN and -0.0 included)
+//@ bound: dim = 3 (one word)
+//@ oracle: bit i of the code is exactly (component i >= 0.0), no other bit is set; the Hamming distance equals the number of sign disagreements, is symmetric and zero on equal codes
+#[kani::proof]
+#[kani::unwind(5)]
+fn c18_binary_quantizer_sign_bits_and_hamming() {
+    let a: [f32; 3] = [f32::from_bits(kani::any()), f32::from_bits(kani::any()), f32::from_bits(kani::any())];
+    let b: [f32; 3] = [f32::from_bits(kani::any()), f32::from_bits(kani::any()), f32::from_bits(kani::any())];
+    let (qa, qb) = (BinaryQuantizer::quantize(&a), BinaryQuantizer::quantize(&b));
+    assert!(qa.len() == 1 && qb.len() == 1 && BinaryQuantizer::words_needed(3) == 1);
+    let mut i = 0;
+    while i < 3 { assert!(((qa[0] >> i) & 1 == 1) == (a[i] >= 0.0), "bit is not the sign of the component"); i += 1; }
+    assert!(qa[0] >> 3 == 0);
+    let mut diff = 0u32; let mut i = 0;
+    while i < 3 { if (a[i] >= 0.0) != (b[i] >= 0.0) { diff += 1; } i += 1; }
+    assert!(BinaryQuantizer::hamming_distance(&qa, &qb) == diff, "Hamming distance is not the number of sign disagreements");
+    assert!(BinaryQuantizer::hamming_distance(&qa, &qb) == BinaryQuantizer::hamming_distance(&qb, &qa));
+    assert!(BinaryQuantizer::hamming_distance(&qa, &qa) == 0);
+    kani::cover!(diff == 3);
+    kani::cover!(diff == 0 && a[0].is_nan());
+    std::mem::forget((qa, qb));
+}
+
